@@ -115,12 +115,24 @@ theorem bits_w (hs : p.size = 2 * (mk + 1)) (h64 : p.size ≤ 2 ^ 64) :
   rw [this]
   rfl
 
+/-- `x != 0` and `0 < x` are the same test on an unsigned word (either spelling of the source
+is normalised to the second before the proof below looks at it) -/
+theorem bne_zero_eq_ult (x : BitVec 64) : (x != 0#64) = BitVec.ult 0#64 x := by
+  by_cases h : x = 0#64
+  · subst h; decide
+  · have hx : x.toNat ≠ 0 := fun h0 => h (BitVec.eq_of_toNat_eq (by simpa using h0))
+    have h1 : (x != 0#64) = true := by simp [bne, h]
+    have h2 : BitVec.ult 0#64 x = true := by
+      rw [BitVec.ult]; simp; omega
+    rw [h1, h2]
+
 /-- `isLeaf()`: bit 63 of the meta word. -/
 theorem isLeaf_w (hs : p.size = 2 * (mk + 1)) (h64 : p.size ≤ 2 ^ 64) :
     Gen.Node.isLeaf p (w mk) = some (leafBit mk p) := by
   unfold Gen.Node.isLeaf
   rw [bits_w hs h64]
   simp only [Option.bind_some]
+  try simp only [bne_zero_eq_ult]
   congr 1
   have hlt := (metaW mk p).isLt
   have hkl := kindBits_lt mk p
